@@ -113,6 +113,12 @@ def _change_pivot(
     Returns:
         A tuple containing the new dr, new phi0, new dz, and the transformed error matrix (if available).
     """
+    # The BESIII solenoid field points along -z, so the signed radius of curvature is
+    # alpha / kappa with alpha < 0: `r` (always given as a positive number) changes sign
+    # with the charge, exactly as in the BOSS `Helix` class.
+    sign = -np.sign(kappa)
+    r = sign * r
+
     if isinstance(old_pivot, vector.VectorObject3D):
         old_dist = vector.obj(rho=old_dr + r, phi=old_phi0)
     elif isinstance(old_pivot, vector.VectorNumpy3D):
@@ -124,8 +130,8 @@ def _change_pivot(
 
     new_dist: vector.Vector2D = center - new_pivot.to_2D()
 
-    new_dr = new_dist.rho - r
-    new_phi0 = new_dist.phi % (2 * np.pi)
+    new_dr = sign * new_dist.rho - r
+    new_phi0 = (new_dist.phi + (1 - sign) * (np.pi / 2)) % (2 * np.pi)
 
     if isinstance(new_phi0, np.ndarray):
         dphi = np.unwrap(new_phi0 - old_phi0)
